@@ -3,7 +3,9 @@ into the printer (mostly valid by construction), plus a separate malformed strea
 derives from one PRNG, so a case is a function of (seed, index)."""
 import random
 
-LITS = ["a", "b", "ab", "A", "x.y", "..", ".", "é", "É", "c", "B", "1", "a b", "ǆ", "s", "k", "中", "\\*", "\\[x\\]", "-"]
+LITS = ["a", "b", "ab", "A", "x.y", "..", ".", "é", "É", "c", "B", "1", "a b", "ǆ", "s", "k", "中", "\\*", "\\[x\\]", "-",
+        "a+b", "x|y", "^a", "a#", "R&D", "~a", "a&&b", "a~~b", "\\{a\\}", "a\\,b", "%", "=", "@", "!a", "a-b", ";", "'", "\""]
+CLASS_CHARS = list("abcxyzABC019") + list("&~^|.+#$*?(){},:<> !%=@;'\"_") + ["é", "É", "ǆ", "中", "/", "[", "]", "-", "&&", "~~", "--"]
 CLASSES = ["[ab]", "[!a]", "[a-c]", "[\\[\\]]", "[/]", "[c-ax]", "[!/]", "[a\\-z]", "[A-Z]", "[é]", "[!a-c]", "[a/]"]
 BOUNDS = ["", ":", ":1", ":2", ":0,1", ":1,", ":0,", ":1,3", ":2,4", ":3", ":0,2", ":1,1", ":2,"]
 BAD_BOUNDS = [":3,1", ":0,0", ":0", ":01", ":18446744073709551616", ":4294967296", ":1,4294967296"]
@@ -16,9 +18,34 @@ class Item:
         self.text, self.sb, self.eb, self.sz, self.ez, self.flag = text, sb, eb, sz, ez, flag
 
 
+def class_escape(c):
+    return "".join("\\" + x if x in "[]-" else x for x in c)
+
+
 class ExprGen:
+    def random_class(self):
+        """a class with 1-4 items over an alphabet that includes every character special to the regex
+        back end (set operators && ~~ --, ^, ranges) and to the glob syntax"""
+        r = self.r
+        items = []
+        for _ in range(r.randint(1, 4)):
+            if r.random() < 0.25:
+                a, b = r.choice("abcxyzABC019&~^"), r.choice("abcxyzABC019&~^")
+                if self.bad_classes or ord(a) <= ord(b):
+                    items.append(class_escape(a) + "-" + class_escape(b))
+                else:
+                    items.append(class_escape(b) + "-" + class_escape(a))
+            else:
+                c = r.choice(CLASS_CHARS)
+                if c == "/" and not self.bad_classes:
+                    c = "a"
+                items.append(class_escape(c))
+        neg = "!" if r.random() < 0.3 else ""
+        return "[" + neg + "".join(items) + "]"
+
     def __init__(self, rnd, max_depth=3, trees=True, flags=True, classes=True, branches=True, lits=None,
                  bad_classes=True):
+        self.bad_classes = bad_classes
         self.r = rnd
         self.max_depth = max_depth
         self.trees, self.flags, self.classes, self.branches = trees, flags, classes, branches
@@ -73,7 +100,7 @@ class ExprGen:
                     else:
                         it = Item("/**/", sb=True, eb=True)
             elif choice < 0.77 and self.classes:
-                it = Item(r.choice(self.cls))
+                it = Item(r.choice(self.cls) if r.random() < 0.5 else self.random_class())
             elif choice < 0.82 and self.flags:
                 if not last:
                     it = Item(r.choice(["(?i)", "(?-i)", "(?i)", "(?i-i)"]), flag=True)
@@ -81,6 +108,18 @@ class ExprGen:
                 edge = r.random() < 0.25
                 nb = r.randint(1, 3)
                 bs = [self.seq(d + 1, prev_b or not edge, True, edge, True, 3) for _ in range(nb)]
+                if nb >= 2 and r.random() < 0.3:
+                    # related branches: one is the other extended or cut at its end
+                    base = bs[0]
+                    k2 = r.randrange(4)
+                    if k2 == 0:
+                        bs[1] = base + [Item("/", sb=True, eb=True), Item(r.choice(self.lits))]
+                    elif k2 == 1:
+                        bs[1] = base + [Item(r.choice(self.lits))]
+                    elif k2 == 2 and len(base) > 1:
+                        bs[1] = base[:-1]
+                    else:
+                        bs[1] = list(base)
                 txt = "{" + ",".join(self.text(b) for b in bs) + "}"
                 it = Item(txt, sb=any(b and b[0].sb for b in bs), eb=any(b and b[-1].eb for b in bs),
                           sz=any(b and b[0].sz for b in bs), ez=any(b and b[-1].ez for b in bs))
@@ -208,3 +247,27 @@ def paths_for(r, expr, words, extra=6):
             seen.add(p)
             res.append(p)
     return res
+
+
+def exh_family(r=None, limit=None):
+    """systematic family for the exhaustiveness and depth folds: repetitions (nested two deep) whose bodies are made of
+    separators, wildcards and tree wildcards, with every kind of bound, after a few prefixes and before a few suffixes"""
+    bodies = ["/*", "*/", "/*/*", "*/*/", "/?", "/a*", "a/", "/a", "/**", "**/", "/*/**", "*", "a", "/*/*/*", "{/*,/a}", "/{*,a}"]
+    bounds = [":1,", "", ":0,1", ":1,3", ":2", ":1,2", ":2,", ":1", ":0,", ":3"]
+    pre = ["", "a", "a/", "**/", "/"]
+    post = ["", "*", "/**", "/*", "a"]
+    out = []
+    for p in pre:
+        for b in bodies:
+            for bd in bounds:
+                one = "<%s%s>" % (b, bd)
+                for q in post:
+                    out.append(p + one + q)
+                for bd2 in bounds:
+                    out.append(p + "<%s%s>" % (one, bd2))
+                    out.append(p + "<a%s%s>" % (one, bd2))
+                    out.append(p + "{%s,b}%s" % (one, bd2 and ""))
+    out = list(dict.fromkeys(out))
+    if limit is not None and r is not None and len(out) > limit:
+        out = r.sample(out, limit)
+    return out
